@@ -7,6 +7,7 @@ import (
 	"runtime"
 	"strings"
 	gosync "sync"
+	"sync/atomic"
 	"time"
 
 	cfgtypes "github.com/agglayer/aggkit/config/types"
@@ -118,7 +119,12 @@ func errStr(err error) string {
 	return err.Error()
 }
 
-func (p *procWrap) ProcessBlock(ctx context.Context, b sync.Block) error {
+func (p *procWrap) ProcessBlock(ctx context.Context, b sync.Block) (err error) {
+	defer func() {
+		if err == nil {
+			atomic.AddInt32(&p.n.inflight, -1)
+		}
+	}()
 	return p.e.gated(ctx, "drv", fmt.Sprintf("process:%d", b.Num), "process", func(fail bool) (tr.M, error) {
 		m := tr.M{"n": b.Num, "v": p.e.c.nameLocked(b.Num, b.Hash), "evs": eventIDs(b.Events)}
 		if fail {
@@ -140,7 +146,8 @@ func (p *procWrap) Reorg(ctx context.Context, first uint64) error {
 			return tr.M{"from": first, "ok": false, "rows": 0, "err": "cannot read rows: " + errStr(err1) + errStr(err2)}, err
 		}
 		if err == nil {
-			p.n.expectGen() // handleReorg is followed by `goto reset`
+			atomic.StoreInt32(&p.n.inflight, 0) // whatever was in the driver's channel is dropped with it
+			p.n.expectGen()                     // handleReorg is followed by `goto reset`
 		}
 		return tr.M{"from": first, "ok": err == nil, "rows": len(before) - len(after), "err": errStr(err)}, err
 	})
@@ -419,10 +426,11 @@ func (d *detWrap) GetFinalizedBlockType() aggkittypes.BlockNumberFinality {
 func (d *detWrap) String() string { return d.rd.String() }
 
 func (d *detWrap) AddBlockToTrack(ctx context.Context, id string, num uint64, hash common.Hash) error {
-	return d.n.e.gated(ctx, "drv", fmt.Sprintf("track:%d", num), "track", func(fail bool) (tr.M, error) {
-		err := d.rd.AddBlockToTrack(ctx, id, num, hash)
-		return tr.M{"n": num, "v": d.n.e.c.nameLocked(num, hash), "ok": err == nil, "err": errStr(err)}, err
-	})
+	return d.n.e.gatedFree(ctx, "drv", fmt.Sprintf("track:%d", num), "track",
+		func() error { return d.rd.AddBlockToTrack(ctx, id, num, hash) },
+		func(err error) tr.M {
+			return tr.M{"n": num, "v": d.n.e.c.nameLocked(num, hash), "ok": err == nil, "err": errStr(err)}
+		})
 }
 
 func (d *detWrap) Subscribe(id string) (*reorgdetector.Subscription, error) {
@@ -450,22 +458,30 @@ func (d *detWrap) relay(realSub, h *reorgdetector.Subscription) {
 		case <-ctx.Done():
 			return
 		}
-		if d.n.e.gated(ctx, "rd", fmt.Sprintf("notify:%d", n), "notify", func(bool) (tr.M, error) {
-			var m uint64
+		if d.n.e.gated(ctx, "rd", fmt.Sprintf("notify:%d", n), "notify", nop) != nil {
+			return
+		}
+		// hand-over: not before the driver can take the notification at once (no delivered block unprocessed, not parked in a
+		// call); nothing is held while waiting
+		for atomic.LoadInt32(&d.n.inflight) != 0 || d.n.e.find("drv") != nil {
 			select {
-			case m = <-realSub.ReorgedBlock:
-			case <-time.After(10 * time.Second):
-				return tr.M{"res": "predicted notification did not come"}, errors.New("predicted notification did not come")
 			case <-ctx.Done():
-				return tr.M{}, ctx.Err()
+				return
+			case <-time.After(200 * time.Microsecond):
 			}
-			select {
-			case h.ReorgedBlock <- m:
-			case <-ctx.Done():
-				return tr.M{}, ctx.Err()
-			}
-			return tr.M{"n": m}, nil
-		}) != nil {
+		}
+		var m uint64
+		select {
+		case m = <-realSub.ReorgedBlock:
+		case <-time.After(10 * time.Second):
+			d.n.e.c.Emit(tr.M{"ev": "panic", "who": "rd", "msg": "predicted notification did not come"})
+			return
+		case <-ctx.Done():
+			return
+		}
+		select {
+		case h.ReorgedBlock <- m:
+		case <-ctx.Done():
 			return
 		}
 		select {
@@ -498,6 +514,8 @@ type node struct {
 	// generous time has passed) the node is not considered at rest
 	wantGens int
 	wantAt   time.Time
+	// blocks handed to the driver and not yet stored (the driver is in handleNewBlock or has them in its channel)
+	inflight int32
 }
 
 func (n *node) expectGen() {
